@@ -227,7 +227,7 @@ func genSysHistory(rng *proto.Rng) sysIn {
 			run.FailInfo = []string{proto.Pick(rng, []string{"ConfigMap", "Secret", "Namespace", "ClusterRole"})}
 		}
 		if len(run.FailMut)+len(run.FailGet)+len(run.FailInvRead) > 0 {
-			run.FailCode = proto.Pick(rng, []int{0, 0, 403, 422, 409, 4091})
+			run.FailCode = proto.Pick(rng, []int{0, 0, 403, 422, 409, 4091, 429, 503})
 		}
 		switch rng.Intn(16) {
 		case 0:
@@ -361,6 +361,16 @@ func sysHandWritten() []sysIn {
 		{Pre: append([]sysObj{{ID: soS.ID, Owner: sysInvID}, {ID: soD.ID, Owner: sysInvID}}, pre...),
 			PreInv: []jid{{"ns2", "d", "x.io", "ConfigMap"}, {"ns1", "s", "example.com", "Secret"}, soD.ID, soS.ID},
 			Runs:   []sysRun{{Kind: "apply", Objs: []sysObj{}}, {Kind: "apply", Objs: []sysObj{soD}}}},
+		// the API server is overloaded (429 / 503) for one object of an apply group: the others of the group are still applied and
+		// everything tracked stays tracked
+		{Pre: pre, Runs: []sysRun{{Kind: "apply", Objs: []sysObj{soA, soD, soK}},
+			{Kind: "apply", Objs: []sysObj{{ID: soA.ID, Rev: 2}, {ID: soD.ID, Rev: 2}, {ID: soK.ID, Keep: true, Rev: 2}}, FailMut: []int{0}, FailCode: 503},
+			{Kind: "apply", Objs: []sysObj{{ID: soA.ID, Rev: 3}, {ID: soD.ID, Rev: 3}, {ID: soK.ID, Keep: true, Rev: 3}}, FailMut: []int{1}, FailCode: 429},
+			{Kind: "apply", Objs: []sysObj{{ID: soA.ID, Rev: 4}, {ID: soD.ID, Rev: 4}, {ID: soK.ID, Keep: true, Rev: 4}}, FailMut: []int{0, 1}, FailCode: 429, Opts: sysOpts{StatusAll: true}}}},
+		// the namespace that holds the inventory object is tracked and dropped from an apply set without any namespaced object: it
+		// is still in use (the inventory lives there) and must not be deleted
+		{Pre: []sysObj{soNs2}, Runs: []sysRun{{Kind: "apply", Objs: []sysObj{soNs1, soA}}, {Kind: "apply", Objs: []sysObj{}},
+			{Kind: "apply", Objs: []sysObj{soR}}, {Kind: "apply", Objs: []sysObj{soNs2, soR}}}},
 		// ids the inventory cannot store
 		{Pre: pre, Runs: []sysRun{{Kind: "apply", Objs: []sysObj{soA, {ID: jid{"ns1", "a_b", "", "ConfigMap"}}}}, {Kind: "apply", Objs: []sysObj{soA}},
 			{Kind: "apply", Objs: []sysObj{soA, {ID: jid{"", "x__y", "rbac.authorization.k8s.io", "ClusterRole"}}}, Opts: sysOpts{StatusAll: true}}, {Kind: "destroy"}}},
